@@ -60,6 +60,13 @@ pub struct MockColumn {
     pub typ: String,
 }
 
+/// Process-wide knobs (so that existing `MockConfig` literals stay valid):
+/// value stored in `system_schema.scylla_keyspaces.initial_tablets` for tablet keyspaces (ScyllaDB stores 0 for `tablets = {'enabled': true}`),
+pub static INITIAL_TABLETS: std::sync::atomic::AtomicI32 = std::sync::atomic::AtomicI32::new(1);
+/// and what is added to the client's source port before the shard of a shard-aware-port connection is derived from it
+/// (0 = faithful; k > 0 emulates a NAT rewriting source ports: the node binds the connection to another shard than requested).
+pub static SHARD_SKEW: std::sync::atomic::AtomicU16 = std::sync::atomic::AtomicU16::new(0);
+
 #[derive(Clone, Debug)]
 pub struct MockKeyspace {
     pub name: String,
@@ -758,7 +765,7 @@ async fn accept_loop(shared: Arc<Shared>, listener: TcpListener, node: usize, sh
         };
         let _ = stream.set_nodelay(true);
         let nr_shards = shared.cfg.read().unwrap().nodes.get(node).and_then(|n| n.nr_shards).filter(|n| *n > 0);
-        let shard = nr_shards.map(|nr| if shard_aware { peer.port() % nr } else { (rt.rr.fetch_add(1, Ordering::SeqCst) % nr as u32) as u16 });
+        let shard = nr_shards.map(|nr| if shard_aware { (peer.port().wrapping_add(SHARD_SKEW.load(Ordering::SeqCst))) % nr } else { (rt.rr.fetch_add(1, Ordering::SeqCst) % nr as u32) as u16 });
         let id = shared.next_conn.fetch_add(1, Ordering::SeqCst);
         let (tx, rx) = mpsc::unbounded_channel();
         let registered = Arc::new(Mutex::new(Vec::new()));
